@@ -50,6 +50,8 @@ Definition k_table_len : list Z := [Z.of_nat (length reveng_table)].
 Definition k_match (a : algo) (d k : Z) (ws tx : list Z) : list Z :=
   let t := map (fun p => Z.lxor (fst p) (snd p)) (combine (trailer a d (Z.to_nat k) (compute_raw a d ws)) tx) in
   let cs := match ws ++ t with [] => [] | x :: r => Cy true true x :: map (Cy false true) r end in
-  let final := hw_match a (hw_run a d cs) in
+  let tr := hw_trace a d cs in
+  let final := snd (last tr (0, false)) in
   let expected := forallb (fun x => x =? 0) tx in
-  t ++ k_hw a d cs ++ [b2l (if Z.odd (poly a) then Bool.eqb final expected else true)].
+  t ++ hw_crc a (init a) :: b2l (hw_match a (init a)) :: flat_map (fun o => [fst o; b2l (snd o)]) tr ++
+  [b2l (if Z.odd (poly a) then Bool.eqb final expected else true)].
